@@ -302,18 +302,21 @@ func traffic(id int, rng *rand.Rand, n int, wg *sync.WaitGroup) {
 			}
 		default:
 			res, a0 := fmt.Sprintf("%s-%d", rPlain, rng.Intn(6)), rng.Intn(5)
-			e, b := sentinel.Entry(res, sentinel.WithBatchCount(uint32(1+rng.Intn(3))), sentinel.WithArgs(a0, "x"))
+			e, b := sentinel.Entry(res, sentinel.WithBatchCount(uint32(1+rng.Intn(3))), sentinel.WithArgs(a0, "x"), sentinel.WithAttachment("k", a0))
 			if b == nil {
 				if rng.Intn(4) == 0 {
 					// the entry stays open while this and the other goroutines open further entries with arguments
 					// (pooled option / context objects are recycled meanwhile); its own arguments must not change
 					runtime.Gosched()
-					e2, b2 := sentinel.Entry(res, sentinel.WithArgs(a0+100, "y", id))
+					e2, b2 := sentinel.Entry(res, sentinel.WithArgs(a0+100, "y", id), sentinel.WithAttachment("k", a0+100), sentinel.WithAttachment("other", id))
 					if rng.Intn(2) == 0 {
 						time.Sleep(20 * time.Microsecond)
 					}
 					if got := e.Context().Input.Args; len(got) != 2 || got[0] != a0 || got[1] != "x" {
 						report("C15/live-entry-args-changed", fmt.Sprintf("a live entry opened WithArgs(%d, \"x\") now carries %v", a0, got))
+					}
+					if got := e.Context().Input.Attachments; len(got) != 1 || got["k"] != a0 {
+						report("C15/live-entry-attachments-changed", fmt.Sprintf("a live entry opened WithAttachment(\"k\", %d) now carries %v", a0, got))
 					}
 					if b2 == nil {
 						e2.Exit()
